@@ -440,7 +440,7 @@ def gen_history(rng, length, solver="glpk", ctx_p=0.12, max_depth=3, fail_p=0.15
                 else:
                     o = [n, k, rng.choice(BND)]
         elif n in ("AddSt", "SubSt"):
-            c = [k for k in im.rx if k not in removed_r]
+            c = list(im.rx)      # incl. reactions that were removed from the model (scope rule applies inside blocks)
             if c:
                 k = rng.choice(c)
                 st = stoich()
